@@ -636,7 +636,7 @@ def run(ctx):
     batches = 1 if ctx["tier"] == "quick" else 10
     per_batch = 2000
     t0 = time.time()
-    binary = build_harness("pkg/gossip")
+    binary = build_harness("pkg/gossip", dirs=["fd", "gossip"])
     stats = {"levels": 0, "level_panics": 0, "suspected": 0, "not_suspected": 0, "near_threshold_skipped": 0,
              "accuracy_hyp_met": 0, "completeness_hyp_met": 0, "pair_queries_equal": 0}
     dist, nontriv_set = {}, set()
@@ -765,7 +765,7 @@ def run(ctx):
 def replay(path, wd):
     obj = json.load(open(path))
     case = obj["case"]
-    binary = build_harness("pkg/gossip")
+    binary = build_harness("pkg/gossip", dirs=["fd", "gossip"])
     from props import gossip_common as gc
     if gc.replay_glue(obj, binary, wd):
         return 0
